@@ -45,18 +45,22 @@ Proof.
 Qed.
 
 Lemma connack_loop_eq cn b : forall l q,
-  connack_loop cn (bmode b) true q l =
+  connack_loop cn (bmode b) q l =
     let '(r, q', ev) := Legacy.connack_loop cn (negb b) q l in (r, q', ev, true).
 Proof.
   induction l as [|m l IH]; intros q; cbn [connack_loop Legacy.connack_loop]; [reflexivity|].
   assert (Hskip : (let '(q1, ev1, a1) := lw cn (bmode b) true q in
-                   let '(r, q2, ev2, a2) := connack_loop cn (bmode b) a1 q1 l in (m :: r, q2, ev1 ++ ev2, a2)) =
+                   if a1 then
+                     let '(r, q2, ev2, a2) := connack_loop cn (bmode b) q1 l in (m :: r, q2, ev1 ++ ev2, a2)
+                   else (m :: l, q1, ev1, false)) =
                   (let '(r, q', ev) := (let (q1, ev1) := Legacy.lw cn (negb b) q in
                      let '(r, q2, ev2) := Legacy.connack_loop cn (negb b) q1 l in (m :: r, q2, ev1 ++ ev2)) in (r, q', ev, true))).
   { rewrite lw_eq. destruct (Legacy.lw cn (negb b) q) as [q1 ev1]. cbn [fst snd]. rewrite IH.
     destruct (Legacy.connack_loop cn (negb b) q1 l) as [[r q2] ev2]. reflexivity. }
   assert (Hsend : forall x m', (let '(q1, ev1, a1) := pq cn (bmode b) true q x in
-                   let '(r, q2, ev2, a2) := connack_loop cn (bmode b) a1 q1 l in (m' :: r, q2, ev1 ++ ev2, a2)) =
+                   if a1 then
+                     let '(r, q2, ev2, a2) := connack_loop cn (bmode b) q1 l in (m' :: r, q2, ev1 ++ ev2, a2)
+                   else (m' :: l, q1, ev1, false)) =
                   (let '(r, q', ev) := (let (q1, ev1) := Legacy.pq cn (negb b) q x in
                      let '(r, q2, ev2) := Legacy.connack_loop cn (negb b) q1 l in (m' :: r, q2, ev1 ++ ev2)) in (r, q', ev, true))).
   { intros x m'. rewrite pq_eq. destruct (Legacy.pq cn (negb b) q x) as [q1 ev1]. cbn [fst snd]. rewrite IH.
